@@ -213,3 +213,9 @@ Example ex_label_domain :
   forallb valid_label ["CC(=O)O"; "C#C"; "Fe(OH)3"; "c1ccccc1"; "C[C@H](N)C(=O)O"; "H2O"; "k_1"; "A-B.C"] = true ∧
   forallb (λ s, negb (valid_label s)) ["_x"; "2A"; "[OH-]"; "Na+"; "A B"; "A*"; "x|y"; "a>>b"; ""] = true.
 Proof. by vm_compute. Qed.
+(** a SMILES-like label that does not start with a letter: coefficient 2 on "[OH-]" prints "2[OH-]", read back as ONE new species *)
+Definition ex_str_bracket : net := mk_net [] [(None, "r", [("[OH-]", 2%Z)], [("O", 1%Z)])] [].
+Definition ex_str_bracket_back : net := (rxns_to_hypergraph (hypergraph_to_rxn_strings ex_str_bracket true false true) "r" true false).1.
+Example ex_bracket_label_outside :
+  strings_domain ex_str_bracket = false ∧ bool_decide (species ex_str_bracket_back = {[ "2[OH-]"; "O" ]}) = true.
+Proof. by vm_compute. Qed.
